@@ -3,6 +3,8 @@ MWS = ['compress.GzipMiddleware', 'client_cache.HTTPCacheMiddleware', 'stats.Sta
        'profile.SimpleProfileMiddleware', 'cookie.SignedCookieMiddleware', 'url.GetParamMiddleware',
        'form.PostDataMiddleware', 'url.ScriptRootMiddleware']
 TARGETS = ['clastic.middleware.%s.request#%s' % (m, k) for m in MWS for k in ('Response', 'HTTPExc')]
+# the middlewares' helpers must not raise either: the stats sample store (C19) and the cookie parser (C16)
+SUPPORT = ['clastic.middleware.stats.Reservoir.add', 'clastic.middleware.cookie.JSONCookie.unserialize']
 
 CANARIES = [
     {'name': 'gzip-when-not-accepted', 'file': 'clastic/middleware/compress.py',
@@ -46,6 +48,7 @@ NATIVE = {'compress': 'gzip', 'client_cache': 'cache', 'stats': 'stats', 'profil
 def build(pc, E, canary=None):
     pc.E = E
     pc.add_functions(E, TARGETS)
+    pc.add_functions(E, [t for t in SUPPORT if t in E.contracts])
     if canary is not None:
         return
     bounded_composition(pc, E)
